@@ -463,6 +463,16 @@ class Sym:
                     return ("bool", "or" if e.func.id == "any" else "and", tuple(parts))
             pos = tuple(("uop", "*", rec(a.value)) if isinstance(a, ast.Starred) else rec(a) for a in e.args)
             kws = tuple((kw.arg or "**", rec(kw.value)) for kw in e.keywords)
+            if any(k == "**" for k, _ in kws):
+                # f(**{"a": x, "b": y}) -- a dict display with literal identifier keys, however it reached the call -- is f(a=x, b=y)
+                spread = []
+                for k, v_ in kws:
+                    if k == "**" and v_[:1] == ("dict",) and v_[1] and all(
+                            kk[:1] == ("const",) and kk[1][:1] in ("'", '"') and kk[1][1:-1].isidentifier() for kk, _vv in v_[1]):
+                        spread.extend((kk[1][1:-1], vv) for kk, vv in v_[1])
+                    else:
+                        spread.append((k, v_))
+                kws = tuple(spread)
             f = rec(e.func)
             # getattr(x, "name"[, default]) with a literal name is x.name (or the default)
             if f == ("glob", "getattr") and len(pos) in (2, 3) and not kws and pos[1][:1] == ("const",) \
@@ -676,6 +686,10 @@ class Sym:
                     and all(isinstance(a_, ast.Constant) for a_ in cv.args) and all(isinstance(k.value, ast.Constant) for k in cv.keywords):
                 return ("call", ("glob", cv.func.id), tuple(("const", repr(a_.value)) for a_ in cv.args),
                         tuple((k.arg, ("const", repr(k.value.value))) for k in cv.keywords))
+            # a module-level tuple of literal constants (a table of names) is that tuple
+            if isinstance(cv, (ast.Tuple, ast.List)) and 0 < len(cv.elts) <= 16 and all(isinstance(x, ast.Constant) for x in cv.elts) \
+                    and isinstance(cv, ast.Tuple):
+                return ("tuple", tuple(("const", repr(x.value)) for x in cv.elts))
             return ("glob", name)
         self._busy.add(key)
         try:
